@@ -4,6 +4,7 @@ import (
 	"context"
 	"fmt"
 	"slices"
+	"sync"
 	"time"
 
 	"golang.org/x/exp/maps"
@@ -20,6 +21,11 @@ import (
 type Model struct {
 	positions *resource.Collection // of *traits.OpenClosePosition
 	presets   []preset
+
+	// writeMu makes a write one step for the other writers of this model, also when it spans several positions:
+	// without it two UpdatePositions calls interleave position by position, and a call that loses a race for one
+	// position has already moved the ones before it when it reports Aborted
+	writeMu sync.Mutex
 }
 
 // NewModel creates a new *Model with the given options.
@@ -83,6 +89,8 @@ func (m *Model) UpdatePositions(positions *traits.OpenClosePositions, opts ...re
 	}
 	opts = append(opts, resource.WithCreateIfAbsent())
 
+	m.writeMu.Lock()
+	defer m.writeMu.Unlock()
 	for _, state := range positions.States {
 		_, err := m.positions.Update(directionToID(state.Direction), state, opts...)
 		if err != nil {
@@ -98,6 +106,8 @@ func (m *Model) UpdatePosition(position *traits.OpenClosePosition, opts ...resou
 }
 
 func (m *Model) UpdatePositionN(dir traits.OpenClosePosition_Direction, position *traits.OpenClosePosition, opts ...resource.WriteOption) (*traits.OpenClosePosition, error) {
+	m.writeMu.Lock()
+	defer m.writeMu.Unlock()
 	msg, err := m.positions.Update(directionToID(dir), position, opts...)
 	if err != nil {
 		return nil, err
